@@ -51,6 +51,14 @@ NEEDS = {
    "a MultiSeparationConstraint built with equality=true, followed by run() with stress wanting the two alignment lines further apart than sep: the gap ends larger than sep and nothing is reported; makeFeasible() alone stays correct (its path still passes equality)."),
  "C13-resize-br-substitute": ("cola/libtopology/resize.cpp SubstituteNodes::operator()(EdgePoint*): BR corner attached to the RHS sliver in both axes (pos=RHS instead of dim==HORIZONTAL?RHS:LHS)",
    "topology::applyResizes (a cola::Resize / ResizeMap, not a move) on a node that has an edge bending round its bottom-right corner, vertical pass only: the bend jumps to the opposite corner and the path cuts through the resized node."),
+ "C08-child-cluster-top-bound": ("cola/libcola/cc_clustercontainmentconstraints.cpp: the sub-constraint keeping a child cluster's max side inside its parent uses the child's min-side variable (clusterVarId instead of clusterVarId + 1)",
+   "clusters nested two levels deep (root -> P -> C): C's max-y side is no longer held inside P, an outside node pulled towards C's members can land on them; in the author's demo the overlap only persists when x is blocked by an alignment, and on that input the changed library also reports unsatisfiable constraints, i.e. the property's precondition ('no constraint reported unsatisfiable') is not met."),
+ "C12-new-connector-list-old-conn": ("cola/libavoid/hyperedgeimprover.cpp moveJunctionAlongCommonEdge: m_new_connectors gets the tree edge's old connector (push before the edge is re-labelled) instead of the new junction-to-junction connector",
+   "improveHyperedgeRoutesMovingAddingAndDeletingJunctions on, a junction of degree >= 4 with two edges sharing a first segment (so the junction is split): newConnectorList reports a connector that existed before the transaction and omits the new live one; routes and topology are untouched."),
+ "C14-core-constraints-rot-cw": ("cola/libdialect/hola.cpp doHOLA aspect-ratio step: after rotate90acw the core's SepMatrix is transformed with ROTATE90CW",
+   "an aspect-ratio preference, a drawing that needs a quarter turn, peeled trees with more weight on the clockwise side (so the anticlockwise branch runs) and directed core constraints: the returned graph carries cardinal separation constraints contradicted by its own positions; 2 of 25 random graphs of 30 nodes / 42-45 edges."),
+ "C19-peel-k2-maxdegree": ("cola/libdialect/peeling.cpp NodeBuckets::takeLeaves early return m_maxDegree < 1 became <= 1",
+   "peeling a graph whose maximum degree is exactly 1, i.e. the single-edge graph K2: no leaves are taken, peel() returns no tree and a two-node core whose nodes have degree one; every graph with a node of degree >= 2 is unaffected."),
 }
 
 # usage: python3 tools/seed_meta.py  -- (re)writes seeded/<name>/meta.json from the table above and seeded/RESULTS.txt
